@@ -1,7 +1,11 @@
 /* chaos_preload.c - LD_PRELOAD shim used by the undriven lane of C02: widens the windows between the
  * file-system operations of a process by sleeping a pseudo-random 0..CHAOS_MAX_US microseconds before
  * and after flock(2), before fclose(3)/close(2)/write(2) and after fopen(3)/open(2).  The sequence of
- * delays is derived from CHAOS_SEED and the pid, so that a run can be repeated.  Trusted harness code. */
+ * delays is derived from CHAOS_SEED and the pid, so that a run can be repeated.
+ * With CHAOS_TRACE=<file> every intercepted call on a descriptor above 2 is also appended to <file>
+ * (one line each, with the size of the file behind the descriptor where that is what the model
+ * predicts): the call-order lane of C02 compares these lines with the order and the intermediate
+ * contents of the transition system.  Trusted harness code. */
 #define _GNU_SOURCE
 #include <dlfcn.h>
 #include <stdarg.h>
@@ -10,6 +14,15 @@
 #include <fcntl.h>
 #include <unistd.h>
 #include <sys/file.h>
+#include <sys/stat.h>
+#include <string.h>
+
+#include <sys/syscall.h>
+static long
+syscall_write(int fd, const void *buf, size_t n)
+{
+	return syscall(SYS_write, fd, buf, n);
+}
 
 static unsigned long long state;
 static long max_us = -1;
@@ -30,6 +43,34 @@ chaos(void)
 		usleep((useconds_t)((state >> 35) % (unsigned long long)max_us));
 }
 
+static long long
+size_of(int fd)
+{
+	struct stat sb;
+
+	return fstat(fd, &sb) == 0 ? (long long)sb.st_size : -1;
+}
+
+static void
+trace(const char *fmt, const char *a, long long x, long long y)
+{
+	static int (*real_close)(int);
+	const char *path = getenv("CHAOS_TRACE");
+	char buf[160];
+	int fd, n;
+
+	if (path == NULL)
+		return;
+	if (!real_close) real_close = dlsym(RTLD_NEXT, "close");
+	fd = open(path, O_WRONLY | O_APPEND | O_CREAT, 0600);
+	if (fd == -1)
+		return;
+	n = snprintf(buf, sizeof(buf), fmt, a, x, y);
+	if (n > 0)
+		(void)!syscall_write(fd, buf, (size_t)n);
+	real_close(fd);
+}
+
 int
 flock(int fd, int op)
 {
@@ -38,7 +79,11 @@ flock(int fd, int op)
 
 	if (!real) real = dlsym(RTLD_NEXT, "flock");
 	chaos();
+	if ((op & ~LOCK_NB) == LOCK_UN)
+		trace("flock %s %lld\n", "UN", size_of(fd), 0);
 	rv = real(fd, op);
+	if ((op & ~LOCK_NB) != LOCK_UN)
+		trace("flock %s %lld\n", (op & ~LOCK_NB) == LOCK_EX ? "EX" : "SH", size_of(fd), 0);
 	chaos();
 	return rv;
 }
@@ -50,6 +95,15 @@ fclose(FILE *fh)
 
 	if (!real) real = dlsym(RTLD_NEXT, "fclose");
 	chaos();
+	if (getenv("CHAOS_TRACE") != NULL && fileno(fh) > 2) {
+		int fd = dup(fileno(fh)), rv;
+		long long before = size_of(fd);
+
+		rv = real(fh);
+		trace("fclose %s%lld %lld\n", "", before, size_of(fd));
+		close(fd);
+		return rv;
+	}
 	return real(fh);
 }
 
@@ -61,6 +115,8 @@ fopen(const char *path, const char *mode)
 
 	if (!real) real = dlsym(RTLD_NEXT, "fopen");
 	fh = real(path, mode);
+	if (fh != NULL)
+		trace("fopen %s %lld\n", mode, size_of(fileno(fh)), 0);
 	chaos();
 	return fh;
 }
